@@ -167,8 +167,14 @@ class MenuConfigState:
         parent = self._parent_menu(self.cur_menu)
         if not parent:
             parent = self.kconf.top_node
-        self.shown = self.shown_nodes(parent)
-        self.sel_node_i = self.shown.index(self.cur_menu)
+        shown = self.shown_nodes(parent)
+        if self.cur_menu not in shown:
+            # The menu being left is not listed in its parent (an edit made inside it hid it, or it was
+            # reached with jump-to): list hidden entries too, as jump_to() does, so that its row exists.
+            self.show_all = True
+            shown = self.shown_nodes(parent)
+        self.shown = shown
+        self.sel_node_i = shown.index(self.cur_menu) if self.cur_menu in shown else 0
         self.cur_menu = parent
 
         return True
